@@ -6,19 +6,19 @@
    threads running Create / Update / Delete and of asynchronous rewrites, any request inputs, any
    environment choice per engine call, sequencer iterations anywhere) from any well-formed store. *)
 From KB Require Import Model.RevSys Model.KeySys Model.C01Cases Model.C04Cases.
-From KB Require Import Proofs.RevSys Proofs.KeySys Proofs.KeySysLog Proofs.KeySysProps Proofs.SchedCases.
+From KB Require Import Proofs.RevSys Proofs.KeySys Proofs.KeySysLog Proofs.KeySysProps Proofs.KeySysUniq Proofs.SchedCases Proofs.SchedLink Proofs.RevSysBlock.
 Local Open Scope N_scope.
 
 (* ----- RevSys: threads allocate and report in any order; tso.Commit is three atomic steps ----- *)
 
 Theorem C04_rev_no_overtake : forall ls d0 t r,
   In r (held (rrun ls (rinit d0)) t) -> committed (rrun ls (rinit d0)) < r.
-Proof. exact (fun ls d0 t r => held_above_committed _ t r (rinv_reachable ls d0)). Qed.
+Proof. exact rev_no_overtake. Qed.
 Print Assumptions C04_rev_no_overtake.
 
 Theorem C04_rev_quiescent_caught_up : forall ls d0,
   rquiescent (rrun ls (rinit d0)) -> committed (rrun ls (rinit d0)) = dealt (rrun ls (rinit d0)).
-Proof. exact (fun ls d0 => quiescent_caught_up _ (rinv_reachable ls d0)). Qed.
+Proof. exact rev_quiescent_caught_up. Qed.
 Print Assumptions C04_rev_quiescent_caught_up.
 
 (* the conditional CAS of tso.Commit never changes the allocation counter *)
@@ -26,8 +26,22 @@ Theorem C04_rev_commit_keeps_dealt : forall ls d0 l,
   dealt (rstep (rrun ls (rinit d0)) l) =
   match l with RDeal _ => if rpanic (rrun ls (rinit d0)) then dealt (rrun ls (rinit d0)) else dealt (rrun ls (rinit d0)) + 1
           | _ => dealt (rrun ls (rinit d0)) end.
-Proof. exact (fun ls d0 l => dealt_step _ l (rinv_reachable ls d0)). Qed.
+Proof. exact rev_commit_keeps_dealt. Qed.
 Print Assumptions C04_rev_commit_keeps_dealt.
+
+(* who blocks the reader, with the sequencer's six actions interleaved anywhere: the sequencer idle, its next slot
+   empty and revisions outstanding => the very next revision is held by a thread *)
+Theorem C04_rev_blocked_by_holder : forall ls d0, let s := rrun ls (rinit d0) in
+  seq s = SqIdle -> slots s ((committed s + 1) mod cap) = None -> committed s < dealt s ->
+  exists t, In (committed s + 1) (held s t).
+Proof. exact rev_blocked_by_holder. Qed.
+Print Assumptions C04_rev_blocked_by_holder.
+
+(* the buffer-full panic (txn.go:289-292) happens only with cap = 100000 revisions outstanding *)
+Theorem C04_rev_panic_only_when_full : forall ls d0, let s := rrun ls (rinit d0) in
+  rpanic s = true -> cap <= dealt s - committed s.
+Proof. exact rev_panic_only_when_full. Qed.
+Print Assumptions C04_rev_panic_only_when_full.
 
 (* ----- KeySys: the request programs ----- *)
 
@@ -63,6 +77,25 @@ Theorem C04_quiescent_caught_up : forall cidx0 d0 store s, reach cidx0 d0 store 
 Proof. exact k_quiescent. Qed.
 Print Assumptions C04_quiescent_caught_up.
 
+(* the precise blocking statement: no panic, nothing for the sequencer to take, revisions outstanding => the
+   reader is held back exactly by the thread in flight that carries the very next revision. With
+   C04_paths_report_at_return (and C04_returned_blocks_nobody): a request that has been answered blocks nobody *)
+Theorem C04_blocked_by_holder : forall cidx0 d0 store s, reach cidx0 d0 store s ->
+  rpanic (rs s) = false -> enabled s LSeqTake = false -> committed (rs s) < dealt (rs s) ->
+  exists t, pc_rev (thr s t) = Some (committed (rs s) + 1).
+Proof. exact k_blocked_by_holder. Qed.
+Print Assumptions C04_blocked_by_holder.
+Theorem C04_returned_blocks_nobody : forall cidx0 d0 store s, reach cidx0 d0 store s ->
+  forall t, enabled s (LReturn t) = true -> pc_rev (thr s t) = None.
+Proof. exact k_returned_blocks_nobody. Qed.
+Print Assumptions C04_returned_blocks_nobody.
+
+(* the panic outcome is bounded: it needs cap = 100000 allocated revisions ahead of the read revision *)
+Theorem C04_panic_only_when_full : forall cidx0 d0 store s, reach cidx0 d0 store s ->
+  rpanic (rs s) = true -> cap <= dealt (rs s) - committed (rs s).
+Proof. exact k_panic_only_when_full. Qed.
+Print Assumptions C04_panic_only_when_full.
+
 Theorem C04_seq_take : forall cidx0 d0 store s, reach cidx0 d0 store s -> enabled s LSeqTake = true ->
   let s' := kstep cidx0 s LSeqTake in
   dealt (rs s') = dealt (rs s) /\ committed (rs s') = committed (rs s) + 1.
@@ -71,15 +104,37 @@ Print Assumptions C04_seq_take.
 
 (* the oracle lemma for schedule cases. Full statement (not proved, see "gaps"): *)
 Definition C04_oracle_sound_full_statement : Prop :=
-  forall c, sched_valid c -> c04_check c = true -> progress_ok c = true.
+  forall c, c04_check c = true -> progress_ok c = true.
 (* proved clauses of progress_ok: the samples never decrease, stay below the marker revision, the node did
    not stall and reached the marker *)
-Theorem C04_oracle_samples_sound_partial : forall c, sched_valid c -> sched_check c = true ->
+Theorem C04_oracle_samples_sound_partial : forall c, sched_check c = true ->
   monotone_from (sc_d0 c) (samples c) = true /\
   forallb (fun x => x <? sc_marker c) (samples c) = true /\
   sc_stalled c = false /\ (sc_final_committed c =? sc_marker c) = true.
-Proof. exact sched_samples_sound. Qed.
+Proof. exact sched_samples_sound_checked. Qed.
 Print Assumptions C04_oracle_samples_sound_partial.
+
+(* proved clause no_overtake_rec: for every request record whose answer carries its revision x and whose last
+   batch commit ran in step c, every GetCurrentRevision() sample taken before step c is below x. The proof couples the
+   oracle's walk over the scheduler trace with the model run (Proofs/SchedLink.v): a revision that is still
+   unresolved (not yet allocated, or held by a thread) is above every sample taken so far, and the revision the
+   answer carries is the one the thread held when it stood before that commit *)
+Theorem C04_oracle_no_overtake_sound_partial : forall c, sched_check c = true ->
+  forallb (no_overtake_rec c) (case_records c) = true.
+Proof. exact sched_no_overtake_sound_checked. Qed.
+Print Assumptions C04_oracle_no_overtake_sound_partial.
+
+(* proved clause records_complete: every request of the case got exactly one record (the oracle's walk pops the
+   request a response belongs to from the same queue the model invokes from) *)
+Theorem C04_oracle_records_complete_sound_partial : forall c, sched_check c = true ->
+  records_complete c (case_records c) = true.
+Proof. exact sched_records_complete_sound_checked. Qed.
+Print Assumptions C04_oracle_records_complete_sound_partial.
+
+(* once resolved (allocated and held by nobody), a revision stays resolved *)
+Theorem C04_resolved_stays_resolved : forall cidx0 s l x, kinv s -> unresolved (kstep cidx0 s l) x -> unresolved s x.
+Proof. exact unresolved_step. Qed.
+Print Assumptions C04_resolved_stays_resolved.
 
 (* ----- non-vacuity ----- *)
 
@@ -100,6 +155,35 @@ Example C04_ex_quiescent :
   pc_rev (thr s 0) = None /\ pc_rev (thr s 1) = None /\ enabled s LSeqTake = false /\ rpanic (rs s) = false
   /\ committed (rs s) = 11 /\ dealt (rs s) = 11.
 Proof. vm_compute. repeat split. Qed.
+(* RevSys runs: a held revision above committed; quiescent after dealing, reporting and the sequencer's six
+   actions; the panic reached by 100000 allocations of one thread that reports only the last one *)
+Example C04_ex_rev_held :
+  held (rrun [RDeal 0; RDeal 1] (rinit 10)) 0 = [11] /\ committed (rrun [RDeal 0; RDeal 1] (rinit 10)) = 10.
+Proof. vm_compute. split; reflexivity. Qed.
+Example C04_ex_rev_quiescent :
+  let s := rrun [RDeal 0; RNotify 0 11 true; RSeq; RSeq; RSeq; RSeq; RSeq; RSeq] (rinit 10) in
+  rquiescent s /\ dealt s = 11 /\ committed s = 11.
+Proof.
+  cbv zeta. split; [|vm_compute; split; reflexivity]. split; [|vm_compute; split; reflexivity].
+  intros t. vm_compute. destruct t; reflexivity.
+Qed.
+Example C04_ex_rev_panic :
+  let s := rrun (repeat (RDeal 0) (N.to_nat 100000) ++ [RNotify 0 100010 true]) (rinit 10) in
+  rpanic s = true /\ dealt s = 100010 /\ committed s = 10.
+Proof. vm_compute. repeat split; reflexivity. Qed.
+(* the sequencer has something to take (hypothesis of C04_seq_take) *)
+Example C04_ex_seq_take :
+  let s := krun true [LInvoke 0 (RqDelete 2 18446744073709551615); LEngine 0 EnvOk; LDeal 0; LNotify 0] (kinit 10 ex_store) in
+  enabled s LSeqTake = true /\ committed (rs s) = 10 /\ committed (rs (kstep true s LSeqTake)) = 11.
+Proof. vm_compute. repeat split; reflexivity. Qed.
+(* the hypotheses of C04_blocked_by_holder on the example state: the reader (12) is held back by thread 2,
+   which carries 13; 13 is unresolved *)
+Example C04_ex_blocked :
+  enabled ex_state LSeqTake = false /\ rpanic (rs ex_state) = false /\ committed (rs ex_state) = 12
+  /\ dealt (rs ex_state) = 13 /\ pc_rev (thr ex_state 2) = Some 13.
+Proof. vm_compute. repeat split; reflexivity. Qed.
+Example C04_ex_unresolved : unresolved ex_state 13.
+Proof. right. exists 2. vm_compute. left. reflexivity. Qed.
 (* the buffer-full panic is an explicit outcome: 100000 unresolved revisions ahead of the read revision *)
 Example C04_ex_panic :
   rpanic (r_notify {| dealt := 100010; committed := 10; slots := fun _ => None; seq := SqIdle;
